@@ -404,15 +404,26 @@ def run_config(args):
         if nout == -1 and idx % 4 == 1 and (kinds is None or "full" in kinds):
             # a newer output appears in the same directory (the run goes on): -1 now means that one
             other = next(u for u in ramses_cfg.UNITS if list(u) != list(cfg["units"]))
-            cfg2 = dict(cfg, nout=cfg["nout"] + 1, units=list(other))
+            cfg2 = dict(cfg, nout=cfg["nout"] + 1, units=list(other), hshift=4096)      # other unit factors AND other values on disk
+            lay_new = dict(lay, exp=[dict(e, rows=[dict(r, h=[t + 4096 for t in r["h"]]) for r in e["rows"]]) for e in lay["exp"]])
             call = cfg["calls"][0]
             try:
+                held = osyris.RamsesDataset(-1, path=d)          # created while the first output was the most recent one
                 ramses_pack.materialise(cfg2, lay, d)
                 with contextlib.redirect_stdout(io.StringIO()):
                     ds = osyris.RamsesDataset(-1, path=d).load()
-                detail = compare_dataset(cfg2, lay, call, ds)
+                detail = compare_dataset(cfg2, lay_new, call, ds)
                 if detail:
                     detail = "after a newer output appeared in the directory, nout=-1: " + detail
+                else:
+                    # the dataset created before: one output, whichever it is - never the files of one scaled and
+                    # parsed with the header of the other
+                    with contextlib.redirect_stdout(io.StringIO()):
+                        held.load()
+                    d1, d2 = compare_dataset(cfg, lay, call, held), compare_dataset(cfg2, lay_new, call, held)
+                    if d1 and d2:
+                        detail = ("a dataset created with nout=-1 before a newer output appeared, loaded afterwards, is neither output: "
+                                  f"against the older one: {d1}; against the newer one: {d2}")
             except Exception as e:
                 detail = f"after a newer output appeared in the directory, load raised {type(e).__name__}: {e}"
             out.append((idx, len(cfg["calls"]), dict(call, form="newer-output"), "mismatch" if detail else "match", detail, 0, None, None))
